@@ -49,8 +49,11 @@ META = dict(
     assumptions=[
         "scope = measures documented as n.s.i. (docstring shows "
         "splitted_copy equality or names the measure n.s.i.); frequency "
-        "histograms (nsi_degree_histogram), nsi_laplacian and the "
-        "experimental nsi_spreading are out of scope by their own docs",
+        "histograms (nsi_degree_histogram) and nsi_laplacian are out of "
+        "scope by their own docs; nsi_spreading (marked experimental, but "
+        "named n.s.i. and tested for invariance by the library's own "
+        "test_nsi) is compared on undirected graphs with a node-weight "
+        "dynamic range <= 1e4",
         "the eigenvector centrality only on connected undirected graphs; "
         "shortest-path based measures (average path length, the closeness "
         "family, global efficiency) on all graphs, directed and disconnected "
@@ -106,6 +109,8 @@ NET = [
     ("nsi_arenas_betweenness", {"stopping_mode": "twinness"}, "n", U),
     ("nsi_newman_betweenness", {}, "n", U),
     ("nsi_newman_betweenness", {"add_local_ends": True}, "n", U),
+    ("nsi_spreading", {}, "n", U),
+    ("nsi_spreading", {"alpha": 0.3}, "n", U),
 ]
 # (method, kind, arity)  kind g / n1 (per node of list 1)
 INTER = [
@@ -281,7 +286,7 @@ def one_split(ctx, Network, A, w, W, directed, v, p, cid, measures,
                 continue
             if m.endswith("arenas_betweenness") and n > 9:
                 continue
-            if ("newman" in m or "arenas" in m) and \
+            if ("newman" in m or "arenas" in m or "spreading" in m) and \
                     w2.max() / w2.min() > 1e4:
                 # these measures invert a weighted Laplacian-type matrix
                 # whose condition number grows with (w_max/w_min)^2: beyond
@@ -320,7 +325,8 @@ def one_split(ctx, Network, A, w, W, directed, v, p, cid, measures,
             # the unit maximum is what the library can deliver, while a
             # genuinely non-invariant weighting shows up at O(1e-2..1)
             rtol = 1e-4 if "eigenvector" in m else \
-                1e-6 if ("newman" in m or "arenas" in m) else 1e-9
+                1e-6 if ("newman" in m or "arenas" in m
+                         or "spreading" in m) else 1e-9
             nat = float(np.sum(w)) ** 2 if "betweenness" in m else 0.0
             if not relation(kind, x0, x1, v, n, rtol, nat):
                 ctx.violation(f"{name}:not-invariant{dsig}",
@@ -328,12 +334,22 @@ def one_split(ctx, Network, A, w, W, directed, v, p, cid, measures,
     return A2, w2, W2
 
 
-def interacting_split(ctx, IN, A, w, v, p, g1, g2, cid):
-    """g1, g2: node lists of the original; twin joins v's group."""
+def interacting_split(ctx, IN, A, w, v, p, g1, g2, cid, ro=None):
+    """g1, g2: node lists of the original (in any order); the twin joins v's
+    group - at the end of the list, or (ro given) anywhere in it."""
     n = len(A)
     A2, w2, _ = split(A, w, None, v, p)
-    h1 = list(g1) + ([n] if v in g1 else [])
-    h2 = list(g2) + ([n] if v in g2 else [])
+    h1, h2 = list(g1), list(g2)
+    for h in (h1, h2):
+        if v in h:
+            h.insert(len(h) if ro is None else int(ro.integers(0, len(h) + 1)),
+                     n)
+    # positions of the original nodes, and of the twin, in the new list 1
+    keep1 = [i for i, x in enumerate(h1) if x != n]
+    twin1 = h1.index(n) if n in h1 else None
+    if list(g1) != sorted(g1) or list(g2) != sorted(g2) or \
+            (twin1 is not None and twin1 != len(h1) - 1):
+        ctx.count("interacting_lists_not_ascending")
     with warnings.catch_warnings():
         warnings.simplefilter("ignore")
         n0 = IN(adjacency=A, node_weights=w, silence_level=3)
@@ -370,9 +386,9 @@ def interacting_split(ctx, IN, A, w, v, p, g1, g2, cid):
                 x1 = np.asarray(x1, float)
                 k = len(g1)
                 good = x0.shape == (k,) and x1.shape == (len(h1),) and \
-                    close(x0, x1[:k], 1e-9)
+                    close(x0, x1[keep1], 1e-9)
                 if good and v in g1:
-                    good = close(x0[list(g1).index(v)], x1[-1], 1e-9)
+                    good = close(x0[list(g1).index(v)], x1[twin1], 1e-9)
             elif kind == "nall":
                 x0 = np.asarray(x0, float)
                 x1 = np.asarray(x1, float)
@@ -415,7 +431,10 @@ def run(ctx):
                     g1 = [i for i in range(n) if mask >> i & 1]
                     g2 = [i for i in range(n) if not mask >> i & 1]
                     v = int(r.integers(0, n))
-                    interacting_split(ctx, IN, A, w, v, 0.3, g1, g2, cid)
+                    if mask % 2:
+                        g1, g2 = g1[::-1], g2[::-1]
+                    interacting_split(ctx, IN, A, w, v, 0.3, g1, g2, cid,
+                                      r if mask % 4 == 1 else None)
     # ---- exhaustive directed ------------------------------------------
     dmeas = [x for x in NET if x[3] == D]
     for n in range(2, nd + 1):
@@ -499,9 +518,15 @@ def run(ctx):
                 g1, g2 = sorted(perm[:c].tolist()), sorted(perm[c:].tolist())
                 if r.random() < 0.3 and len(g2) > 1:
                     g2 = g2[:-1]          # leave a node uninvolved
+                ro = None
+                if r.random() < 0.5:
+                    # node lists as a caller may write them: in any order
+                    g1 = [g1[i] for i in r.permutation(len(g1))]
+                    g2 = [g2[i] for i in r.permutation(len(g2))]
+                    ro = r
                 interacting_split(ctx, IN, A, w, int(r.integers(0, n)),
                                   float(r.choice([0.5, 0.2, 0.9])), g1, g2,
-                                  cid)
+                                  cid, ro)
         if len(ctx.samples) < 3:
             ctx.sample({"case": cid, "N": len(A), "directed": directed,
                         "edges": np.argwhere(A).tolist()[:30]})
